@@ -30,6 +30,8 @@ func sentinelMsg(id string) string {
 func kickBody(c *nd.Ctx) nd.Result {
 	plan := kickPlans[c.Choose(len(kickPlans), "after-the-rejoin")]
 	nick := []string{"no-option", "same-nick-option", "new-nick-option"}[c.Choose(3, "rejoin-nick")]
+	unavailableShape = c.Choose(2, "unavailable-presences-carry-status-codes-and-nick")
+	defer func() { unavailableShape = 0 }()
 	ns := stanza.NSClient
 	var env *vsess.Env
 	var setupErr, joinErr, rejoinErr, leaveErr error
